@@ -261,6 +261,22 @@ var pins = []struct {
 	{"gte-2^53", "gte", []string{"9007199254740992", "9007199254740993"}},
 	{"gt-maxint64", "gt", []string{"9223372036854775807", "9223372036854775806"}},
 	{"substr-maxint-length", "substr", []string{"abc", "1", "9223372036854775807"}},
+	// zero-padded decimal integers are decimal (seeded change 3: ParseInt base 0 read them as octal)
+	{"padded-sumi-010", "sumi", []string{"010", "1"}},
+	{"padded-sumi-08", "sumi", []string{"08", "1"}},
+	{"padded-multi-neg", "multi", []string{"-010", "0100"}},
+	{"padded-maxi", "maxi", []string{"007", "010", "09"}},
+	{"padded-modi", "modi", []string{"0100", "07"}},
+	{"padded-bucket", "bucket", []string{"0170", "050"}},
+	{"padded-clamp", "clamp", []string{"010", "09", "011"}},
+	{"padded-lt", "lt", []string{"09", "010"}},
+	{"padded-hi", "hi", []string{"0012345"}},
+	{"padded-expbucket", "expbucket", []string{"0100"}},
+	{"padded-bytesize", "bytesize", []string{"02048"}},
+	{"padded-substr", "substr", []string{"abcdefghijkl", "010", "01"}},
+	{"padded-select", "select", []string{"a b c d e f g h i j k", "010"}},
+	{"padded-sumf", "sumf", []string{"010", "0.5"}},
+	{"padded-zero", "sumi", []string{"0000", "-00"}},
 	// documented examples, kept as fixed regression points
 	{"doc-bucket", "bucket", []string{"70", "50"}},
 	{"doc-bucketrange", "bucketrange", []string{"70", "50"}},
@@ -544,6 +560,33 @@ func (e *eng) dense() {
 			e.runArgs("bytesize", []string{v.String(), "2"}, nil, "")
 		}
 		p.Mul(p, big.NewInt(1024))
+	}
+	// zero-padded decimal integers 00..012, 007, 08, 09, 010, 0100, -010, 0000 ... through every helper that takes integers
+	pads := []string{"00", "01", "02", "03", "04", "05", "06", "07", "08", "09", "010", "011", "012", "007", "0100", "-010", "0000",
+		"-08", "-09", "-007", "0777", "000", "0012", "-0100"}
+	for _, x := range pads {
+		for _, y := range []string{"1", "3", "08", "010", "-007"} {
+			for _, h := range []string{"sumi", "subi", "multi", "divi", "modi", "maxi", "mini", "lt", "gt", "lte", "gte", "sumf", "subf", "multf", "divf"} {
+				e.runArgs(h, []string{x, y}, nil, "")
+				e.runArgs(h, []string{y, x}, nil, "")
+			}
+			e.runArgs("clamp", []string{x, "-" + y, "0" + strings.TrimPrefix(y, "-")}, nil, "")
+			e.runArgs("substr", []string{"abcdefghijklmnop", x, y}, nil, "")
+		}
+		e.runArgs("sumi", []string{"1", x, "02"}, nil, "")
+		for _, h := range []string{"bucket", "bucketrange"} {
+			e.runArgs(h, []string{x, "3"}, nil, "")
+			e.runArgs(h, []string{x, "010"}, nil, "")
+			e.runArgs(h, []string{"25", "0" + strings.TrimPrefix(x, "-")}, nil, "")
+		}
+		for _, h := range []string{"expbucket", "hi", "hf", "isint", "isnum", "floor", "ceil", "round", "sqrt", "bytesize", "bytesizesi", "downscale", "percent"} {
+			e.runArgs(h, []string{x}, nil, "")
+		}
+		e.runArgs("round", []string{"1.23456", "0" + strings.TrimPrefix(x, "-")}, nil, "")
+		e.runArgs("percent", []string{x, "01", "0200"}, nil, "")
+		e.runArgs("downscale", []string{"012345678", "0" + strings.TrimPrefix(x, "-")}, nil, "")
+		e.runArgs("select", []string{"f0 f1 f2 f3 f4 f5 f6 f7 f8 f9 f10 f11 f12", x}, nil, "")
+		e.runArgs("pow", []string{x, "02"}, nil, "")
 	}
 	c.Count("dense_sweeps", 1)
 }
